@@ -43,6 +43,9 @@ class StateResultChecker(CustomCallChecker):
         )
 
     def synthesize(self, args: list[ast.expr]) -> tuple[ast.expr, Type]:
+        if not args:
+            # Needs a tag and at least one qubit or an array of qubits
+            raise GuppyTypeError(WrongNumberOfArgsError(self.node, 2, 0))
         tag, _ = ExprChecker(self.ctx).check(args[0], string_type())
         tag_value: Const
         match tag:
